@@ -50,7 +50,7 @@ def do_import(pid, letters=("A", "B")):
         print(sid, "kept" if meta["kept"] else "REJECTED", meta["verified"]["suite_tail"], "demo", rc0, "->", rc1)
 
 
-def do_eval(ids, checks=None):
+def do_eval(ids, checks=None, stage="detection"):
     """each change is applied in the scratch worktree of its property (never in /repo) and the checks are pointed
     at that worktree with VERIF_REPO; their evidence/replays go to /tmp/seedout/<id> (VERIF_OUT)"""
     for sid in ids:
@@ -65,7 +65,7 @@ def do_eval(ids, checks=None):
         rc, out = sh(f"git apply {d}/patch.diff", cwd=wt)
         if rc != 0:
             print(sid, "patch does not apply", out[-300:]); continue
-        res = meta.setdefault("detection", {})
+        res = meta[stage] = {}
         outdir = f"/tmp/seedout/{sid}"
         try:
             for c in (checks or [meta["property"]]):
@@ -81,20 +81,30 @@ def do_eval(ids, checks=None):
         finally:
             sh("git checkout -- .", cwd=wt)
             shutil.rmtree(outdir, ignore_errors=True)
-        meta["caught_by"] = sorted({k.split(":")[0] + " (" + k.split(":")[1] + ")" for k, v in res.items() if v["exit"] == 1})
+        meta["caught_by" if stage == "detection" else "caught_by_final"] = sorted({k.split(":")[0] + " (" + k.split(":")[1] + ")" for k, v in res.items() if v["exit"] == 1})
         meta["evaluated_how"] = "patch applied in a scratch worktree; check run with VERIF_REPO=<worktree> (same check code, same bounds)"
         json.dump(meta, open(f"{d}/meta.json", "w"), indent=1)
 
 
 def table():
     rows = []
+    n = first = final = 0
     for m in sorted(glob.glob(f"{SEEDED}/*/meta.json")):
         meta = json.load(open(m))
         if not meta.get("kept"):
             continue
-        note = meta.get("needs_to_manifest", "").splitlines()[0][:110] if meta.get("needs_to_manifest") else ""
-        rows.append(f"| {meta['id']} | {meta['property']} | {', '.join(meta.get('caught_by', [])) or ('MISSED' if meta.get('detection') else 'not evaluated')} | {note} |")
-    print("| seeded change | property | caught by | what it is |\n|---|---|---|---|")
+        note = (meta.get("needs_to_manifest", "") or "").strip().splitlines()
+        note = note[0][:120] if note else ""
+        ini = ", ".join(meta.get("caught_by", [])) or ("missed" if meta.get("detection") and all(v["exit"] == 0 for v in meta["detection"].values())
+                                                        else ("inconclusive (exit 2)" if meta.get("detection") else "-"))
+        fin = ", ".join(meta.get("caught_by_final", [])) or ("missed" if meta.get("detection_final") and all(v["exit"] == 0 for v in meta["detection_final"].values())
+                                                              else ("inconclusive (exit 2)" if meta.get("detection_final") else "-"))
+        n += 1
+        first += bool(meta.get("caught_by"))
+        final += bool(meta.get("caught_by_final"))
+        rows.append(f"| {meta['id']} | {meta['property']} | {ini} | {fin} | {note} |")
+    print(f"{n} kept changes; caught when first evaluated: {first}; caught by the checks as committed: {final}\n")
+    print("| seeded change | property | first evaluation | final checks | what it is / needs |\n|---|---|---|---|---|")
     print("\n".join(rows))
 
 
@@ -111,5 +121,8 @@ if __name__ == "__main__":
         do_eval(ids)
     elif cmd == "evalwith":
         do_eval([sys.argv[2]], checks=sys.argv[3:])
+    elif cmd == "reeval":
+        ids = sys.argv[2:] or sorted(os.path.basename(os.path.dirname(m)) for m in glob.glob(f"{SEEDED}/*/meta.json"))
+        do_eval(ids, stage="detection_final")
     elif cmd == "table":
         table()
